@@ -255,6 +255,11 @@ func (h *supH) build() {
 			Namespace: "default", Replicas: 1, LaunchTimeout: 5, DependsOn: types.DependsOnConfig{},
 			Disabled: c.has('x'),
 		}
+		if c.has('g') {
+			// one replica of a replicated process: the process name differs from the replica name
+			// (every registry of the runner is keyed by the replica name)
+			pc.Name, pc.Replicas = "grp", 2
+		}
 		pc.RestartPolicy.Restart = c.policy
 		pc.RestartPolicy.MaxRestarts = c.max
 		pc.RestartPolicy.ExitOnEnd = c.has('e')
@@ -661,6 +666,9 @@ func genScenario(r *rand.Rand, maxProcs int) (bool, []genProc) {
 		if r.Intn(15) == 0 {
 			fl += "x"
 		}
+		if r.Intn(4) == 0 {
+			fl += "g"
+		}
 		p.flags = fl
 		for j := 0; j < i; j++ {
 			if r.Intn(3) == 0 {
@@ -856,8 +864,51 @@ func (h *supH) directedStopThenShutdown(emit func(string)) {
 	}
 }
 
+// directedManual: start / stop / restart requests on a running, a finished and an unknown process,
+// for a plain process and for a replica of a replicated one (name differs from the replica name).
+func (h *supH) directedManual(emit func(string)) {
+	for _, fl := range []string{"-", "g"} {
+		for _, pol := range []string{"no", "always"} {
+			for _, req := range []string{"start a", "restart a", "stop a", "start nosuch", "stop nosuch", "restart nosuch"} {
+				for _, when := range []string{"running", "finished"} {
+					emit("sup coarse 0")
+					emit(fmt.Sprintf("proc a %s 0 %s 0 0 143 -", pol, fl))
+					emit("proc b no 0 - 0 0 0 -")
+					emit("init")
+					emit("s call 0 run")
+					h.drain(emit)
+					if when == "finished" {
+						emit("s call 5 stop a")
+						h.drain(emit)
+					}
+					emit("s call 1 " + req)
+					h.drain(emit)
+					emit("s call 2 state a")
+					h.drain(emit)
+					emit("s call 9 shutdown")
+					h.drain(emit)
+					for i := 0; i < 8 && !h.dead; i++ {
+						al := h.aliveNames()
+						if len(al) == 0 {
+							break
+						}
+						emit(fmt.Sprintf("s exit %s 0", al[0]))
+						h.drain(emit)
+					}
+					if len(h.aliveNames()) == 0 && len(h.enabledKeys()) == 0 {
+						emit("end quiescent")
+					} else {
+						emit("end limit")
+					}
+				}
+			}
+		}
+	}
+}
+
 func (h *supH) Gen(r *rand.Rand, tier string, emit func(string)) {
 	h.directed(emit)
+	h.directedManual(emit)
 	h.directedExit(emit)
 	h.directedStopThenShutdown(emit)
 	scen, maxProcs, maxSteps := 120, 4, 120
